@@ -140,6 +140,10 @@ func (a *Analysis) tableOf(v ssa.Value, seen map[ssa.Value]bool) ([][]int64, []s
 		return nil, nil, true
 	}
 	seen[v] = true
+	// a table that is an array is addressed directly (&table[i]); a slice is loaded first
+	if g, isG := v.(*ssa.Global); isG {
+		v = &ssa.UnOp{X: g}
+	}
 	switch x := v.(type) {
 	case *ssa.UnOp:
 		if g, ok := x.X.(*ssa.Global); ok {
